@@ -4,6 +4,7 @@ evaluator walks the segments (session.py) with a small model of the controller s
 (as matcher text, parsed independently), selected connection, recorded messages."""
 import re
 from . import env, histgen, model, session, wire, refmatch as rm
+from .accmodel import Model as AccModel
 
 MALFORMED = ['(', 'a.b.c', '[x', 'x ! y ! z', 'wl_a@5', '"', 'a(b)c']
 
@@ -20,9 +21,20 @@ def gen_script(d, specs, dialect, weights=None, list_heavy=False, unresolved=Tru
     g = rm.Gen(d, V, 1)
     items = []
     p_cmd = 0.35 if list_heavy else 0.3
+    simple = ['wl_display', 'wl_registry', 'wl_callback', '.bind', '.sync', '.delete_id', '.new', '.destroyed', '2', '3', 'A:', 'B:'] + [
+        str(t) for t in V.get('type', [])[:6]] + ['.' + str(n) for n in V.get('name', [])[:6]]
+    last_acc = []
     for m in specs:
         while d.chance(p_cmd):
-            k = d.weighted([(4, 'filter'), (5, 'connection'), (10 if list_heavy else 3, 'list'), (1, 'breakpoint'), (1, 'other')])
+            k = d.weighted([(4, 'filter'), (5, 'connection'), (10 if list_heavy else 3, 'list'), (3, 'breakpoint'), (1, 'other'), (4, 'filter-acc')])
+            if k == 'filter-acc':
+                # extends the current filter (no reset): alternatives and/or exclusions made of simple atoms
+                alts = [d.choice(simple) for _ in range(d.int(0, 2))]
+                excl = [d.choice(simple) for _ in range(d.int(0 if alts else 1, 1))]
+                t = (', '.join(alts) + (' ! ' + ', '.join(excl) if excl else '')).strip()
+                items.append(['cmd', 'filter ' + t, None, dict(alts=alts, excl=excl)])
+                last_acc.append(t)
+                continue
             if k == 'filter':
                 items.append(['cmd', d.choice(['filter !', 'f !', 'filter  !'])])
                 items.append(['cmd', d.choice(['filter ', 'fil ', 'f ', 'wlfilter ', 'wl filter ']) + gen_matcher_text(d, g)])
@@ -30,10 +42,18 @@ def gen_script(d, specs, dialect, weights=None, list_heavy=False, unresolved=Tru
                 items.append(['cmd', d.choice(['connection ', 'c ', 'conn ']) + d.choice(['A', 'B', 'A', 'B', 'C', 'a', 'b', 'all', 'all', 'Z', 'AA'])])
             elif k == 'list':
                 mt = '' if d.chance(0.3) else (d.choice(MALFORMED) if d.chance(0.06) else gen_matcher_text(d, g))
+                if last_acc and d.chance(0.3):
+                    mt = d.choice(last_acc)         # the very text given to an earlier filter command
                 cap = d.choice(['', '', ' ~ 1', ' ~ 2', '~3', ' ~ 0', ' ~ 50', '~1', ' ~5', ' ~ x'])
                 items.append(['cmd', d.choice(['list ', 'l ', 'li ']) + mt + cap])
             elif k == 'breakpoint':
-                items.append(['cmd', 'breakpoint ' + gen_matcher_text(d, g)])
+                if d.chance(0.6):
+                    # breakpoints never influence what is displayed (shared state between the two matchers would)
+                    alts = [d.choice(simple) for _ in range(d.int(1, 2))]
+                    excl = [d.choice(simple) for _ in range(d.int(0, 1))]
+                    items.append(['cmd', 'breakpoint ' + ', '.join(alts) + (' ! ' + ', '.join(excl) if excl else '')])
+                else:
+                    items.append(['cmd', 'breakpoint ' + gen_matcher_text(d, g)])
             else:
                 items.append(['cmd', d.choice(['help', 'frobnicate', 'filter', 'breakpoint', 'connection', 'matcher wl_surface', 'h list', '', 'li'])])
         items.append(['line', wire.render(m, dialect), m['conn']])
@@ -62,6 +82,12 @@ class Walker:
         self.filter_text = initial_filter          # None = '*'
         self.filter = matcher.parse(initial_filter).simplify() if initial_filter else matcher.always
         self.filter_never = False
+        # accumulation (`filter X` without a reset): a model over atoms is exact as long as the current filter was built from
+        # atoms; after an opaque (generated, possibly nested) matcher was installed, extending it makes the expectation unknown
+        self.acc = AccModel(matcher, 'star')
+        self.acc_parsed = {}
+        self.opaque = bool(initial_filter)
+        self.unknown = False
         self.sel = None                            # selected connection name
         self.recorded = []                         # real messages in arrival order
         self.conn_names = []                       # names of connections opened so far
@@ -97,11 +123,21 @@ class Walker:
             self.res.bad('message-on-wrong-connection', '%r attributed to %s, its tag says %s' % (seg.text, m.obj.connection.name(), name))
         if name not in self.conn_names:
             self.conn_names.append(name)
-        exp = (self.sel is None or name == self.sel) and (not self.filter_never) and self.filter.matches(m)
+        exp = (self.sel is None or name == self.sel) and self.filter_matches(m)
         shown = [l for l in seg.out_lines() if session.MSG_LINE.match(l)]
         return m, exp, shown
 
-    def on_cmd_state(self, text):
+    def filter_matches(self, m):
+        """True/False, or None when the current filter's meaning is not determined by the model"""
+        if self.unknown:
+            return None
+        if self.filter_never:
+            return False
+        if self.opaque:
+            return self.filter.matches(m)
+        return self.acc.expect(self.acc_parsed, m)
+
+    def on_cmd_state(self, text, meta=None):
         """update the model for a state-changing command; returns the command kind"""
         t = text.strip()
         parts = re.split(r'\s', t, maxsplit=1)
@@ -121,16 +157,35 @@ class Walker:
             if second == '!':
                 self.filter_never = True
                 self.filter_text = '!'
-            elif self.filter_never:
+                self.unknown = False
+                self.opaque = False
+                self.acc.reset_never()
+            elif meta is not None:
+                # accumulating command made of simple atoms
+                for a in meta['alts'] + meta['excl']:
+                    if a not in self.acc_parsed:
+                        self.acc_parsed[a] = self.matcher.parse(a).simplify()
+                if self.opaque and not self.filter_never:
+                    self.unknown = True
+                else:
+                    self.acc.apply(meta['alts'], meta['excl'])
+                    self.filter_never = False
+                    self.opaque = False
+                self.filter_text = (self.filter_text or '*') + ' + ' + second
+                self.changes['filter'] += 1
+            elif self.filter_never or self.acc.const is not None and not self.opaque and not self.unknown:
                 p = self.parse(second)
                 if p is not None:
                     self.filter = p
                     self.filter_text = second
                     self.filter_never = False
+                    self.opaque = True
+                    self.unknown = False
                     self.changes['filter'] += 1
             else:
-                # accumulation semantics is C12's business; scripts always reset first
-                self.res.bad('harness:filter-without-reset', text)
+                # an opaque matcher joined onto a non-constant filter: meaning not modelled here (C12's business)
+                if self.parse(second) is not None:
+                    self.unknown = True
         elif cmd == 'connection' and second:
             if second == 'all':
                 if self.sel is not None:
